@@ -113,7 +113,14 @@ kind_to_target = dict(
 )
 
 constant_to_target = dict(
-    smallest="sys.float_info.min", largest="sys.float_info.max", posinf="math.inf", neginf="-math.inf", pi="math.pi"
+    smallest="sys.float_info.min",
+    largest="sys.float_info.max",
+    posinf="math.inf",
+    neginf="-math.inf",
+    pi="math.pi",
+    eps="sys.float_info.epsilon",
+    smallest_subnormal="math.ulp(0.0)",
+    nan="math.nan",
 )
 
 type_to_target = dict(integer="int", float="float", complex="complex", boolean="bool")
